@@ -21,10 +21,13 @@ CLAIMED = {
        "equals the RFC-structured specification: every epoch secret, welcome key/nonce, exporter, the PSK fold = the RFC recursion for any list length, "
        "every key of the lazily consumed secret tree after ANY request sequence = the spec key of (leaf, type, generation), ratchet keys independent of "
        "request order. Tie: on every run the real crate (hook verif::kdf; RustCrypto and OpenSSL, suites 1-7) and the model instantiated with a Lean "
-       "reference HKDF/HMAC/SHA-2 are run on fresh random inputs and compared byte for byte (~58k derivations quick).",
+       "reference HKDF/HMAC/SHA-2 are run on fresh random inputs and compared byte for byte (~58k derivations quick). Transcript values (Props.C13Transcript: "
+       "interim_confirmed_chain, membership_tag_chain, confirmed_binds, interim_binds): the confirmed and interim transcript hash of every public commit and the membership tag of every "
+       "public commit / proposal of random mixed-provider histories are recomputed by the model from the RAW message bytes (decoded with the generated codec records of C12) and compared "
+       "with the members' values (`th` / `mtag` rows; the repository's interop transcript vectors are `#guard`-checked as well).",
   note="Trusted: Lean kernel; Lean SHA-2/HMAC/HKDF reference (checked against published vectors and python hashlib, not proved); hand-written model validated by the "
-       "byte-level correspondence. Straight-line parts of the schedule are near-rfl; content is in the secret tree, ratchet, PSK chain. Transcript hashes / membership "
-       "tags are modelled (KS.confirmedTranscriptHash etc.) but their correspondence needs real messages and is exercised by the group-level checks. "
+       "byte-level correspondence. Straight-line parts of the schedule are near-rfl; content is in the secret tree, ratchet, PSK chain. Transcript hashes and membership tags of ENCRYPTED handshake "
+       "messages are exercised by the group-level agreement oracle only. "
        "Finding kept in Props: a non-leaf index given to SecretTree returns a key the RFC does not define (nonleaf_request_succeeds) — unreachable through Group.",
   ref="DESIGN.md §4 C13"),
  "C05": dict(
